@@ -29,6 +29,9 @@ pub struct Scenario {
     pub preemption_bound: usize,
     /// whether the source fills (an empty block) on its end-of-input read
     pub fill_at_end: bool,
+    /// capacity used for the hashing queue instead of the code's 16 (0 = unchanged)
+    #[serde(default)]
+    pub process_cap: usize,
 }
 
 impl Scenario {
